@@ -8,9 +8,12 @@ DEV_REAL = ["parsec/mca/device/device_gpu.c and transfer_gpu.c (never compiled i
             "harness/l3/dev_driver.c + sim/dev/simdev_parsec.c (MCA component device/simdev filling a parsec_device_gpu_module_t), rankified with the library"]
 DEV_STUB = L2_STUB + ["accelerator back-end (sim/dev/simdev.c: device memory = host buffers managed by the real zone allocator, streams with seeded per-operation latencies, "
                       "copies performed at completion time, event query lag, kernels = harness closures run at completion time, freed device blocks poisoned)"]
-DEV_BOUNDS = ("1 rank, 1-8 threads, 8 schedulers (ip/llp/ll excluded: KF-DTD-AGAIN-LIVELOCK), 1-3 simulated devices with 3-6 streams and 3-8 tiles of memory (allocation unit = 1 or 1/2 tile), "
-              "2-8 tiles of 1-4 elements, 2-26 DTD insertions of 1-3 parameters (IN/OUT/INOUT) with CPU-only, accelerator-only or any-chore placement, PARSEC_PUSHOUT exactly where a later CPU consumer needs it "
-              "(or everywhere), preferred-device advice, copy/kernel latency 0.2-200 us + heavy tail, event-query lag, peer access on/off, d2h_max_flows in {1,2,20}, skip_empty_events, sort_pending; "
-              "no task completes before the last insertion (steers around KF-DTD-WAR-RACE), no tile twice in one task (KF-DTD-REPEATED-TILE)")
+DEV_BOUNDS = ("1 rank, 1-8 threads, 7 schedulers (ip/llp/ll: KF-DTD-AGAIN-LIVELOCK; rnd: same retry livelock seen here with CPU-only plans), 1-3 simulated devices with 3-6 streams, "
+              "2-8 tiles of 1-4 elements, 2-26 DTD insertions (+ token tasks) of 1-3 parameters (IN/OUT/INOUT) with CPU-only, accelerator-only or any-chore placement, PARSEC_PUSHOUT exactly where a later CPU consumer "
+              "needs it (discipline of tests/dsl/dtd/dtd_test_new_tile.c) or everywhere, preferred-device advice, copy/kernel latency 0.2-200 us + heavy tail, event-query lag, peer access on/off, d2h_max_flows in {1,2,20}, "
+              "skip_empty_events, sort_pending; allocation unit = 1 or 1/2 tile.  Plans are drawn from four sub-spaces that stay clear of the recorded accelerator-layer findings (sim/dev/NOTES.md): "
+              "(1) accelerators read only, 1-3 devices, memory >= all tiles; (2) one device reading and writing, memory >= all tiles; (3) one device with 3-5 tiles of memory, two device-resident dirty tiles, accelerator tasks "
+              "serialised through tile 0, LRU eviction of the streamed tiles; (4) 1-3 devices with 3-5 tiles of memory, accelerators read only and are serialised through a token tile, constant eviction and re-staging.  "
+              "The full space is reachable with knob mode=0 (sim/dev/fullspace_check.py).  No task completes before the last insertion (KF-DTD-WAR-RACE), no tile twice in one task (KF-DTD-REPEATED-TILE)")
 REGISTRY["C43"] = l2("C43", "dev", ["harness/l3/dev_driver.c", "sim/dev/simdev_parsec.c"], ["harness/l3/dev.c", "sim/dev/simdev.c"], 1, DEV_REAL, DEV_BOUNDS,
     knobs=["prop=43"], engine="simcore-L3", variant="Bdev", prebuild=_dev_prebuild_c43, stub=DEV_STUB)
